@@ -387,3 +387,26 @@ Proof.
   split; [vm_compute; repeat split; reflexivity|].
   split; [apply seg_bound_b; vm_compute; reflexivity|vm_compute; reflexivity].
 Qed.
+
+(* what a forced copy inside one message does, on one program (evaluated by the kernel; the general
+   theorems [copy_all] / [copy_independent] do not state it): parent (handle 0, at 8) points to child
+   (handle 1, at 24, data 7); CopyFrom of the parent into a new struct (handle 2, at 32) when the
+   segment is 48 bytes long.  The copy's pointer slot then designates a NEW child at 48 (handle 3),
+   the parent's still the old one at 24 (handle 4); writing 9 to the old child leaves the new one at
+   7, writing 5 to the new one leaves the old one at 9. *)
+Definition ex3_ops : list bop :=
+  [BNewStruct 0 8 1; BNewStruct 0 8 0; BSetUint 1 0 8 7; BSetPtr 0 0 1; BSetRoot 0; BNewStruct 0 8 1;
+   BCopyFrom 2 0; BRead InDst (OSPtr 2 0); BRead InDst (OSPtr 0 0);
+   BSetUint 1 0 8 9; BRead InDst (OUint 3 0 8); BRead InDst (OUint 4 0 8);
+   BSetUint 3 0 8 5; BRead InDst (OUint 3 0 8); BRead InDst (OUint 4 0 8)].
+Definition bval_summary (v : bval) : Z :=
+  match v with
+  | BV (VPtr (Ok p)) => p_off p
+  | BV (VNum (Ok n)) => n
+  | BVUnit (Ok _) => 0
+  | _ => -1
+  end.
+Example forced_copy_is_deep_example :
+  sub_prog ex3_ops = true /\
+  map bval_summary (brun ex2_env ex2_st0 ex3_ops) = [8; 24; 0; 0; 0; 32; 0; 48; 24; 0; 7; 9; 0; 5; 9].
+Proof. split; vm_compute; reflexivity. Qed.
